@@ -68,7 +68,7 @@ pub fn replay(path: &str) -> i32 {
         Some("c04") => client_codec::replay_c04(scn),
         Some("server-stream-command") => framing::replay_server_stream_command(scn),
         Some("server-stream") => framing::replay_server_stream(scn),
-        Some("c07-server") | Some("c07-client") | Some("c07-drip") => framing::replay_c07(scn),
+        Some("c07-server") | Some("c07-client") | Some("c07-drip") | Some("c07-rtu-reopen") => framing::replay_c07(scn),
         Some("client-sm-wrap") => client_sm::replay_wrap(),
         Some("c14-pure") => client_sm::replay_c14_pure(scn),
         Some("c20-client") | Some("c20-server") | Some("c20-stream") => decode::replay_c20(scn),
